@@ -436,3 +436,4 @@ MANIFEST = {
     "thorough re-checks on every transition. Longer histories and other context shapes are outside the bound.",
     "ref": "DESIGN.md §4 C12",
 }
+MANIFEST["text"] += ' Registry options (on_redefinition, autoconvert modes) are among the probes that must be restored.'
